@@ -51,7 +51,11 @@ func permutations(xs []int) [][]int {
 }
 
 func c16Build(name string, alpha []rune, inAlpha []rune, maxSet int, allOrdersUpTo int, inLen int) *c16Cfg {
-	cfg := &c16Cfg{name: name, cands: c16Strings(alpha, 1, 3), inputs: c16Strings(inAlpha, 1, inLen)}
+	return c16BuildL(name, alpha, inAlpha, maxSet, allOrdersUpTo, inLen, 3)
+}
+
+func c16BuildL(name string, alpha []rune, inAlpha []rune, maxSet int, allOrdersUpTo int, inLen int, candLen int) *c16Cfg {
+	cfg := &c16Cfg{name: name, cands: c16Strings(alpha, 1, candLen), inputs: c16Strings(inAlpha, 1, inLen)}
 	n := len(cfg.cands)
 	masks := []int{}
 	for m := 0; m < 1<<n; m++ {
@@ -233,6 +237,24 @@ func c16Get(tier, which string) *c16Cfg {
 		v = c16Build("ab", []rune("ab"), []rune("abc"), 14, 3, 4)
 	case which == "ab3": // triple reads, small sets, all orders
 		v = c16Build("ab3", []rune("ab"), []rune("abc"), 3, 2, 3)
+	case which == "nonlatin3":
+		// several sibling characters above U+00FF under one node
+		v = c16BuildL("nonlatin3", []rune("яж→"), []rune("яж→c"), 4, 2, 3, 2)
+		keep := []c16Case{}
+		for _, cs := range v.cases {
+			if bits.OnesCount(uint(cs.mask)) >= 3 {
+				keep = append(keep, cs)
+			}
+		}
+		if tier == "quick" && len(keep) > 1500 {
+			step := len(keep) / 1500
+			k2 := []c16Case{}
+			for i := 0; i < len(keep); i += step {
+				k2 = append(k2, keep[i])
+			}
+			keep = k2
+		}
+		v.cases = keep
 	case which == "deep":
 		// longer symbols: a node deeper than a later-registered shorter symbol must unwind to it
 		v = c16Build("deep", []rune("ab"), []rune("abc"), 3, 3, 4)
@@ -283,6 +305,7 @@ func init() {
 			}
 			add("aя", 2, "sets-nonlatin-read-pairs")
 			add("deep", 1, "deep-symbols-monotonicity")
+			add("nonlatin3", 1, "three-nonlatin-alphabet")
 			return sp
 		},
 		Bounds: func(tier string) string {
